@@ -291,6 +291,11 @@ const YDEN: [Fq2; 4] = [
     },
 ];
 
+#[cfg(feature = "verif")]
+pub(super) fn verif_tables() -> [&'static [Fq2]; 4] {
+    [&XNUM, &XDEN, &YNUM, &YDEN]
+}
+
 impl IsogenyMap for G2 {
     fn isogeny_map(&mut self) {
         eval_iso(self, [&XNUM[..], &XDEN[..], &YNUM[..], &YDEN[..]]);
